@@ -39,6 +39,14 @@ CHECKS["C03"]=dict(level="model_checking", ref="§C03",
    technique="finite product enumeration per opcode encoding comparing call-granular bus-cycle lists with the reference interpreter's documented lists",
    text="For every encoding and every tuple of the atoms that select a timing variant or an address (flags, B, BC, A==(HL), operands, all address registers, IR), two backgrounds with pairwise distinct register values so every delay address identifies its source, the ordered list of bus calls made by Z80::emulate (4-T fetch, 3-T read/write, single delay T-states with address, port cycles) must equal RefZ80's documented list; interrupt entry in IM 0/1/2 and NMI (running and halted) after every encoding: total 13/19/11 T and accesses.",
    note="Documented lists are RefZ80's (FUSE/Zilog breakdowns), totals unit-tested against the Zilog manual (121 variants). Machine-level T totals are C04/C05.")
+CHECKS["C04"]=dict(level="model_checking", ref="§C04",
+   technique="finite product enumeration: encodings x timing variants x placements x start T-states, single steps of the real Emulator against reference interpreter + literal contention formula",
+   text="Every encoding, every timing variant (conditions, repeat/final iteration, port parity), every contended/uncontended assignment of the address roles it uses (code, operand address, HL/IX/IY, BC/DE/A as pointer and port high byte, SP, I), both machines and every start T of the frame in thorough (complete windows around frame start, first picture lines, a mid line, the 191/192 edge and the frame end in quick) is single-stepped on the real Emulator and on RefZ80+RefULA; elapsed T must agree exactly; ten cycle-kind probes put the address at 0xC000 under all eight 128K banks.",
+   note="Frame clock is placed with the hook verif_set_frame_clocks (assumes contention depends only on the clock value; C05 is the control without placing). RefULA = the formula in the property text.")
+CHECKS["C05"]=dict(level="model_checking", ref="§C05",
+   technique="complete enumeration of the frame's T-states for the INT window plus lock-step execution of an enumerated program alphabet over whole frames against the reference machine",
+   text="An enabled interrupt is accepted at a boundary at T iff T<32 for every T of the frame on both machines (running and halted); all loop bodies of up to 2 (quick) / 3 (thorough) elements over a 17-element alphabet (HALT, LDIR, indexed 23-T op, EI, DI, OUT, NOP sleds hitting many residues), in contended/uncontended RAM, with IM 2 handlers of three lengths, run for 6/40 whole frames on the real Emulator without ever placing the clock and on RefZ80+RefULA: absolute T, PC and SP compared after every instruction (tens of millions of boundaries), interrupt counter at the end; emulate_frames(FrameCount(n)) emulates exactly n frames.",
+   note="Absolute time of the implementation uses the hook frame counter. Programs are an alphabet, not all programs.")
 NOT_YET = {
 }
 def main():
